@@ -242,5 +242,10 @@ def check(ck):
         got = prog.typeset(mod, m.assigns[name])
         ck.require(got == want, "C15.3", "%s.%s" % (mod, name), "= %s" % sorted(want),
                    "%s.%s folds to %s, the property requires %s" % (mod, name, sorted(got) if got else got, sorted(want)), "jsonrpclib/%s.py" % mod)
-    d = prog.typeset("utils", prog.modules["utils"].assigns["DictType"])
-    ck.require(d == {"dict"}, "C15.3", "utils.DictType", "= dict", "utils.DictType folds to %s" % d, "jsonrpclib/utils.py")
+    for name, want in (("DictType", {"dict"}), ("ListType", {"list"}), ("TupleType", {"tuple"}), ("STRING_TYPES", {"bytes", "str"}),
+                       ("NUMERIC_TYPES", {"int", "float"}), ("VALUE_TYPES", {"bool", "NoneType"})):
+        if name not in prog.modules["utils"].assigns:
+            raise AnalysisError("anchor vanished: utils.%s" % name)
+        d = prog.typeset("utils", prog.modules["utils"].assigns[name])
+        ck.require(d == want, "C15.3", "utils.%s" % name, "= %s" % sorted(want),
+                   "utils.%s folds to %s, the type tests of the package rely on %s" % (name, sorted(d) if d else d, sorted(want)), "jsonrpclib/utils.py")
